@@ -10,7 +10,7 @@ from .. import astutil as A
 from ..fa import FA
 from ..loader import AnalysisError
 from .cache_model import (CacheModel, self_attr, CACHE_CLASS, branch_filter, both, no_back_edges, every_path_through,
-                          at_most_once, bool_leaves, edge_implies, linear_terms)
+                          at_most_once, bool_leaves, edge_implies, linear_terms, safe_expand)
 
 
 def _block_of(fa: FA, st):
@@ -582,10 +582,7 @@ def _check_budget_site(ck, cm, R, fa, ins):
         for c in evs:
             if not c.args:
                 continue
-            try:
-                a0 = fa.expand(c.args[0])
-            except AnalysisError:
-                a0 = c.args[0]
+            a0 = safe_expand(fa, c.args[0], c)
             if isinstance(a0, ast.Call) and A.call_attr(a0) == "popleft" and self_attr(A.call_recv(a0), cm.queue):
                 left.append(c)
         ck.ob("C06.R3", fa.key(wst, "evict-lru-end"), bool(left),
@@ -648,7 +645,7 @@ def check_estimates_bounded_below(ck, cm, R):
         for r in fa.returns():
             if r.value is None:
                 continue
-            e = fa.expand(r.value)
+            e = safe_expand(fa, r.value, r)
             subs = [x for x in ast.walk(e) if isinstance(x, ast.BinOp) and isinstance(x.op, ast.Sub)] + \
                    [x for x in ast.walk(e) if isinstance(x, ast.UnaryOp) and isinstance(x.op, ast.USub)]
             if not subs:
@@ -656,7 +653,7 @@ def check_estimates_bounded_below(ck, cm, R):
             n += 1
             top = r.value
             ok = isinstance(top, ast.Call) and isinstance(top.func, ast.Name) and top.func.id == "max" and len(top.args) >= 2 and \
-                any(not any(isinstance(y, ast.BinOp) and isinstance(y.op, ast.Sub) for y in ast.walk(fa.expand(a))) for a in top.args)
+                any(not any(isinstance(y, ast.BinOp) and isinstance(y.op, ast.Sub) for y in ast.walk(safe_expand(fa, a, r))) for a in top.args)
             ck.ob(R, fa.key(r, "estimate-bounded-below"), ok,
                   "the extrapolated size is bounded below by a measured one" if ok else
                   "`%s` extrapolates from a difference of two sample measurements and can come out negative (heavy rows in the small sample): the entry "
